@@ -175,7 +175,12 @@ def case(rng: Any, ctx: Ctx, index: int) -> None:
     npix = 12 * nside * nside
 
     if mode == 'projection':
-        P = create_projection_operator(land, samp, det)
+        try:
+            P = create_projection_operator(land, samp, det)
+        except Exception as exc:  # noqa: BLE001
+            LOG.evaluated('C16.projection')
+            LOG.violation('C16', 'C16.projection', f'projection/construction-raises-{type(exc).__name__}', f'legal inputs refused: {str(exc)[:120]}', config=key)
+            return
 
         def judge() -> None:
             got = stokes_np(P.mv(sky))
@@ -226,7 +231,12 @@ def case(rng: Any, ctx: Ctx, index: int) -> None:
             LOG.count('C16.ptp.reduced-to', dense.skeleton((P.T @ P).reduce()))
         guarded('C16.ptp', judge_ptp)
     else:
-        H = create_acquisition(land, samp, det)
+        try:
+            H = create_acquisition(land, samp, det)
+        except Exception as exc:  # noqa: BLE001
+            LOG.evaluated('C16.acquisition')
+            LOG.violation('C16', 'C16.acquisition', f'acquisition/construction-raises-{type(exc).__name__}/{kind}', f'legal inputs refused: {str(exc)[:120]}', config=key)
+            return
 
         def judge_acq() -> None:
             got = np.asarray(H.mv(sky), dtype=np.float64)
